@@ -47,6 +47,16 @@ fn main() {
         }
         return;
     }
+    if args[2] == "--mkcase" {
+        // frv <ID> --mkcase <pattern> <text> <pos> [extra-json]: print a replay file for a hand-written case
+        let n = frv::conv::parse(&args[3]).expect("pattern parses and converts");
+        let text = args.get(4).cloned().unwrap_or_default();
+        let pos: usize = args.get(5).and_then(|p| p.parse().ok()).unwrap_or(0);
+        let extra: Value = args.get(6).and_then(|e| serde_json::from_str(e).ok()).unwrap_or(Value::Null);
+        let body = serde_json::json!({"property": prop, "kind": "regression", "case": pat_case(&n.to_pattern(), &n, &text, pos, extra), "expected": "property holds", "actual": ""});
+        println!("{}", serde_json::to_string_pretty(&body).unwrap());
+        return;
+    }
     if args[2] == "--artifact" {
         // frv <ID> --artifact <fuzz_search|fuzz_diff|fuzz_compile> <file>: re-check a libFuzzer artifact in-process
         let data = std::fs::read(&args[4]).expect("read artifact");
